@@ -93,9 +93,20 @@ class ifthenelse(Command):
         for tok in test_iter:
             # Handle literal integers with tex.readNumber
             number_tokens: List[Token] = []
-            while tok.catcode == Token.CC_OTHER and (tok not in ['<', '>', '=']):
-                number_tokens.append(tok)
-                tok = next(test_iter, Space())
+            while True:
+                if tok.catcode == Token.CC_OTHER and (tok not in ['<', '>', '=']):
+                    number_tokens.append(tok)
+                elif tok.catcode == Token.CC_SPACE and number_tokens and \
+                        all(t in ['+', '-'] for t in number_tokens):
+                    # TeX allows blanks between the signs of a number
+                    # and its digits
+                    pass
+                else:
+                    break
+                tok = next(test_iter, None)
+                if tok is None:
+                    tok = Space()
+                    break
             if number_tokens:
                 value: int = tex.readInternalType(number_tokens, tex.readNumber)
                 postfix.append(number(value))
